@@ -29,37 +29,73 @@ template <typename T> std::string show_raw(const T& v, std::true_type) { std::os
 template <typename T> std::string show_raw(const T&, std::false_type) { return "?"; }
 inline std::string show_raw(const Time& t, std::true_type) { return show_time(t); }
 inline std::string show_raw(const Time& t, std::false_type) { return show_time(t); }
-template <typename T> std::string show(const T& v) {
-  std::string s = show_raw(v, can_stream<T>());
-  for (auto& c : s) if (c == ' ' || c == ';' || c == ',' || c == '\n') c = '_';
-  return s.empty() ? "<empty>" : s;
-}
-template <typename T, typename Tag, typename V> std::string show(const detail::NamedType<T, Tag, V>& v) {
-  return show(v.get());
-}
+// printing goes through a class template, so that the generated per-class printers (probe_tables.inc) and the
+// ones below can be added as specialisations
+template <typename T, typename = void> struct Shower {
+  static std::string str(const T& v) {
+    std::string s = show_raw(v, can_stream<T>());
+    for (auto& c : s) if (c == ' ' || c == ';' || c == ',' || c == '\n') c = '_';
+    return s.empty() ? "<empty>" : s;
+  }
+};
+template <typename T> std::string show(const T& v) { return Shower<T>::str(v); }
+template <> struct Shower<std::string> {
+  static std::string str(const std::string& v) {      // every byte visible, no separators of the line formats
+    std::string s = "'";
+    char buf[8];
+    for (unsigned char c : v) {
+      if (c > 0x20 && c < 0x7f && c != ';' && c != ',' && c != '|' && c != '/' && c != '=' && c != '\'' && c != '%') s += static_cast<char>(c);
+      else { snprintf(buf, sizeof buf, "%%%02x", c); s += buf; }
+    }
+    return s + "'";
+  }
+};
+template <> struct Shower<float> {
+  static std::string str(const float& v) { char b[64]; snprintf(b, sizeof b, "%.6f", static_cast<double>(v)); return b; }
+};
+template <> struct Shower<double> {
+  static std::string str(const double& v) { char b[64]; snprintf(b, sizeof b, "%.6f", v); return b; }
+};
+template <> struct Shower<bool> { static std::string str(const bool& v) { return v ? "1" : "0"; } };
+template <> struct Shower<std::chrono::nanoseconds> {
+  static std::string str(const std::chrono::nanoseconds& v) { return "ns:" + std::to_string(v.count()); }
+};
+template <typename T, typename Tag, typename V> struct Shower<detail::NamedType<T, Tag, V>> {
+  static std::string str(const detail::NamedType<T, Tag, V>& v) { return show(v.get()); }
+};
+template <typename T> struct Shower<std::vector<T>> {
+  static std::string str(const std::vector<T>& v) {
+    std::string s = "[";
+    for (auto const& x : v) s += show(x) + "+";
+    return s + "]";
+  }
+};
+template <typename T> struct Shower<boost::optional<T>> {
+  static std::string str(const boost::optional<T>& v) { return v ? show(*v) : std::string("none"); }
+};
 struct ShowVisitor : public boost::static_visitor<std::string> {
   template <typename T> std::string operator()(const T& v) const { return show(v); }
 };
-template <typename... Ts> std::string show(const boost::variant<Ts...>& v) {
-  return "alt" + std::to_string(v.which()) + ":" + boost::apply_visitor(ShowVisitor(), v);
-}
+template <typename... Ts> struct Shower<boost::variant<Ts...>> {
+  static std::string str(const boost::variant<Ts...>& v) { return "alt" + std::to_string(v.which()) + ":" + boost::apply_visitor(ShowVisitor(), v); }
+};
 template <typename E> typename std::enable_if<std::is_enum<E>::value, std::string>::type show_enum(const E& e) {
   return "enum" + std::to_string(static_cast<int>(e));
 }
-inline std::string show(const FrameType& e) { return show_enum(e); }
-inline std::string show(const Gain& g) { return (g.isDb() ? "dB:" : "lin:") + std::to_string(g.isDb() ? g.asDb() : g.asLinear()); }
-inline std::string show(const AudioProgrammeId& i) { return formatId(i); }
-inline std::string show(const AudioContentId& i) { return formatId(i); }
-inline std::string show(const AudioObjectId& i) { return formatId(i); }
-inline std::string show(const AudioPackFormatId& i) { return formatId(i); }
-inline std::string show(const AudioChannelFormatId& i) { return formatId(i); }
-inline std::string show(const AudioBlockFormatId& i) { return formatId(i); }
-inline std::string show(const AudioStreamFormatId& i) { return formatId(i); }
-inline std::string show(const AudioTrackFormatId& i) { return formatId(i); }
-inline std::string show(const AudioTrackUidId& i) { return formatId(i); }
-inline std::string show(const TransportId& i) { return formatId(i); }
-inline std::string show(const FrameFormatId& i) { return formatId(i); }
-inline std::string show(const TimeReference& e) { return show_enum(e); }
+template <> struct Shower<FrameType> { static std::string str(const FrameType& e) { return show_enum(e); } };
+template <> struct Shower<Gain> { static std::string str(const Gain& g) { return (g.isDb() ? "dB:" : "lin:") + std::to_string(g.isDb() ? g.asDb() : g.asLinear()); } };
+template <> struct Shower<AudioProgrammeId> { static std::string str(const AudioProgrammeId& i) { return formatId(i); } };
+template <> struct Shower<AudioContentId> { static std::string str(const AudioContentId& i) { return formatId(i); } };
+template <> struct Shower<AudioObjectId> { static std::string str(const AudioObjectId& i) { return formatId(i); } };
+template <> struct Shower<AudioPackFormatId> { static std::string str(const AudioPackFormatId& i) { return formatId(i); } };
+template <> struct Shower<AudioChannelFormatId> { static std::string str(const AudioChannelFormatId& i) { return formatId(i); } };
+template <> struct Shower<AudioBlockFormatId> { static std::string str(const AudioBlockFormatId& i) { return formatId(i); } };
+template <> struct Shower<AudioStreamFormatId> { static std::string str(const AudioStreamFormatId& i) { return formatId(i); } };
+template <> struct Shower<AudioTrackFormatId> { static std::string str(const AudioTrackFormatId& i) { return formatId(i); } };
+template <> struct Shower<AudioTrackUidId> { static std::string str(const AudioTrackUidId& i) { return formatId(i); } };
+template <> struct Shower<TransportId> { static std::string str(const TransportId& i) { return formatId(i); } };
+template <> struct Shower<FrameFormatId> { static std::string str(const FrameFormatId& i) { return formatId(i); } };
+template <> struct Shower<TimeReference> { static std::string str(const TimeReference& e) { return show_enum(e); } };
 
 // ---- capabilities: which accessors exist for (C, P) is known statically from the translator's tables
 // (the templated wrappers get<P>() etc. always exist and fail inside their bodies, so they cannot be detected) ----
@@ -137,12 +173,157 @@ template <> struct samples<HeadphoneVirtualise> { static std::vector<HeadphoneVi
 template <> struct samples<ScreenEdgeLock> { static std::vector<ScreenEdgeLock> get() { return {ScreenEdgeLock(HorizontalEdge("left")), ScreenEdgeLock(VerticalEdge("top"))}; } };
 
 
-// ---- random fill (XML harness): set a random valid value with probability 1/2 ----
+// ---- random values (XML harness) ----
 typedef std::mt19937 Rng;
+inline unsigned rnd(Rng& r, unsigned n) { return n ? static_cast<unsigned>(r() % n) : 0; }
+inline double rnd_unit(Rng& r) { return (r() >> 5) / 134217728.0; }       // [0,1)
+
+// raw values of the C++ type under a NamedType; mostly inside typical validator ranges, sometimes far outside
+template <typename T, typename = void> struct RawGen;
+template <> struct RawGen<bool> { static bool make(Rng& r) { return r() & 1; } };
+template <> struct RawGen<int> {
+  static int make(Rng& r) { unsigned k = rnd(r, 10); return k < 6 ? static_cast<int>(rnd(r, 12)) - 1 : k < 9 ? static_cast<int>(rnd(r, 400)) - 100 : static_cast<int>(r() % 2000000) - 1000000; }
+};
+template <> struct RawGen<unsigned int> {
+  static unsigned make(Rng& r) { unsigned k = rnd(r, 10); return k < 5 ? rnd(r, 12) : k < 8 ? rnd(r, 70000) : k < 9 ? 48000u : r(); }
+};
+template <> struct RawGen<float> {
+  static float make(Rng& r) {
+    static const float nice[] = {0.f, 1.f, -1.f, 0.5f, 0.25f, 30.f, -30.f, 45.f, 90.f, -90.f, 110.f, 180.f, -180.f, 2.f, 100.f, 20000.f};
+    switch (rnd(r, 8)) {
+      case 0: case 1: return nice[rnd(r, sizeof nice / sizeof nice[0])];
+      case 2: case 3: return static_cast<float>(rnd_unit(r) * 2.0 - 1.0);
+      case 4: return static_cast<float>(rnd_unit(r) * 360.0 - 180.0);
+      case 5: return static_cast<float>(rnd_unit(r));
+      case 6: return static_cast<float>(rnd_unit(r) * 1e-5);
+      default: return static_cast<float>((rnd_unit(r) - 0.3) * 40000.0);
+    }
+  }
+};
+template <> struct RawGen<double> {
+  static double make(Rng& r) { return rnd(r, 3) ? static_cast<double>(RawGen<float>::make(r)) : (rnd_unit(r) - 0.5) * 200.0; }
+};
+template <> struct RawGen<std::string> {
+  static std::string make(Rng& r) {
+    static const char* alpha[] = {"a", "b", "Z", "0", "9", "_", "-", ".", ":", "/", " ", " ", "&", "<", ">", "\"", "'", "\xc3\xa9", "\xe2\x82\xac",
+                                  "\t", "\n", "]]>", "&amp;", "#", "%", ";", "=", "{", "|"};
+    static const char* words[] = {"en", "de", "Main", "left", "right", "top", "bottom", "SN3D", "N3D", "FuMa", "x y", "ITU-R BS.1770", "EBU R128"};
+    if (rnd(r, 4) == 0) return words[rnd(r, sizeof words / sizeof words[0])];
+    std::string s;
+    unsigned n = 1 + rnd(r, 10);
+    for (unsigned i = 0; i < n; ++i) s += alpha[rnd(r, sizeof alpha / sizeof alpha[0])];
+    // never whitespace-only (C01's stated domain for element texts)
+    bool ws = true;
+    for (char c : s) if (c != ' ' && c != '\t' && c != '\n') ws = false;
+    if (ws) s += "w";
+    return s;
+  }
+};
+template <> struct RawGen<std::chrono::nanoseconds> {
+  static std::chrono::nanoseconds make(Rng& r) {
+    switch (rnd(r, 4)) {
+      case 0: return std::chrono::nanoseconds(static_cast<long long>(rnd(r, 1000)) * 1000000LL);
+      case 1: return std::chrono::nanoseconds(static_cast<long long>(r()) % 5000000000LL);
+      case 2: return std::chrono::nanoseconds(static_cast<long long>(rnd_unit(r) * 3.6e14));      // up to 100 h
+      default: return std::chrono::nanoseconds(0);
+    }
+  }
+};
+template <> struct RawGen<Time> {
+  static Time make(Rng& r) {
+    if (rnd(r, 3) == 0) {
+      static const int64_t dens[] = {1, 25, 30, 1000, 44100, 48000, 96000, 1001};
+      int64_t den = dens[rnd(r, 8)];
+      int64_t secs = rnd(r, 2) ? rnd(r, 100) : rnd(r, 359999);
+      return Time(FractionalTime(secs * den + rnd(r, static_cast<unsigned>(den)), den));
+    }
+    return Time(RawGen<std::chrono::nanoseconds>::make(r));
+  }
+};
+
+// parameter values: Gen<P>::make(rng) returns a valid value, or none when no value can be produced
+template <typename P, typename = void> struct Gen {
+  static boost::optional<P> make(Rng& r) {
+    auto v = samples<P>::get();
+    if (v.empty()) return boost::none;
+    return v[rnd(r, static_cast<unsigned>(v.size()))];
+  }
+};
+template <typename T, typename = void> struct has_rawgen : std::false_type {};
+template <typename T> struct has_rawgen<T, void_t<decltype(RawGen<T>::make(std::declval<Rng&>()))>> : std::true_type {};
+template <typename NT, typename T> boost::optional<NT> gen_named(Rng& r, std::true_type) {
+  for (int i = 0; i < 8; ++i) {
+    try { return NT(RawGen<T>::make(r)); } catch (...) {}
+  }
+  auto v = samples<NT>::get();
+  if (v.empty()) return boost::none;
+  return v[rnd(r, static_cast<unsigned>(v.size()))];
+}
+template <typename NT, typename T> boost::optional<NT> gen_named(Rng& r, std::false_type) {
+  auto inner = Gen<T>::make(r);          // a NamedType around a class type (e.g. a label)
+  if (inner) { try { return NT(*inner); } catch (...) {} }
+  auto v = samples<NT>::get();
+  if (v.empty()) return boost::none;
+  return v[rnd(r, static_cast<unsigned>(v.size()))];
+}
+template <typename T, typename Tag, typename V> struct Gen<detail::NamedType<T, Tag, V>> {
+  static boost::optional<detail::NamedType<T, Tag, V>> make(Rng& r) {
+    return gen_named<detail::NamedType<T, Tag, V>, T>(r, has_rawgen<T>());
+  }
+};
+template <typename T> struct Gen<std::vector<T>> {
+  static boost::optional<std::vector<T>> make(Rng& r) {
+    std::vector<T> v;
+    unsigned n = rnd(r, 4);
+    for (unsigned i = 0; i < n; ++i) if (auto x = Gen<T>::make(r)) v.push_back(*x);
+    return v;
+  }
+};
+template <typename A, typename B> struct Gen<boost::variant<A, B>> {
+  static boost::optional<boost::variant<A, B>> make(Rng& r) {
+    if (rnd(r, 2)) { if (auto a = Gen<A>::make(r)) return boost::variant<A, B>(*a); }
+    else { if (auto b = Gen<B>::make(r)) return boost::variant<A, B>(*b); }
+    return boost::none;
+  }
+};
+template <typename A, typename B, typename C> struct Gen<boost::variant<A, B, C>> {
+  static boost::optional<boost::variant<A, B, C>> make(Rng& r) {
+    switch (rnd(r, 3)) {
+      case 0: if (auto a = Gen<A>::make(r)) return boost::variant<A, B, C>(*a); break;
+      case 1: if (auto b = Gen<B>::make(r)) return boost::variant<A, B, C>(*b); break;
+      default: if (auto c = Gen<C>::make(r)) return boost::variant<A, B, C>(*c); break;
+    }
+    return boost::none;
+  }
+};
+template <> struct Gen<Gain> {
+  static boost::optional<Gain> make(Rng& r) {
+    double v = RawGen<double>::make(r);
+    return rnd(r, 2) ? Gain::fromLinear(v) : Gain::fromDb(v);
+  }
+};
+#define GEN_ID(ID, VALUE, MAXV) \
+  template <> struct Gen<ID> { static boost::optional<ID> make(Rng& r) { return ID(VALUE(1u + rnd(r, MAXV))); } };
+GEN_ID(AudioProgrammeId, AudioProgrammeIdValue, 0xfffe)
+GEN_ID(AudioContentId, AudioContentIdValue, 0xfffe)
+GEN_ID(AudioObjectId, AudioObjectIdValue, 0xfffe)
+GEN_ID(AudioTrackUidId, AudioTrackUidIdValue, 0xfffffffe)
+#define GEN_TID(ID, VALUE) \
+  template <> struct Gen<ID> { static boost::optional<ID> make(Rng& r) { \
+    static const TypeDescriptor tds[] = {TypeDefinition::DIRECT_SPEAKERS, TypeDefinition::MATRIX, TypeDefinition::OBJECTS, TypeDefinition::HOA, TypeDefinition::BINAURAL}; \
+    return ID(tds[rnd(r, 5)], VALUE(1u + rnd(r, 0xfffe))); } };
+GEN_TID(AudioPackFormatId, AudioPackFormatIdValue)
+GEN_TID(AudioChannelFormatId, AudioChannelFormatIdValue)
+GEN_TID(AudioStreamFormatId, AudioStreamFormatIdValue)
+template <> struct Gen<AudioTrackFormatId> { static boost::optional<AudioTrackFormatId> make(Rng& r) {
+  return AudioTrackFormatId(TypeDefinition::OBJECTS, AudioTrackFormatIdValue(1u + rnd(r, 0xfffe)), AudioTrackFormatIdCounter(1u + rnd(r, 0xfe))); } };
+
+// set a random valid value with probability 1/2
 template <typename C, typename P> void maybe_set(C& c, Rng& rng, std::true_type) {
-  auto vals = samples<P>::get();
-  if (vals.empty() || (rng() & 1)) return;
-  try { c.set(vals[rng() % vals.size()]); } catch (...) {}
+  if (rng() & 1) return;
+  auto v = Gen<P>::make(rng);
+  if (!v) return;
+  try { c.set(*v); } catch (...) {}
 }
 template <typename C, typename P> void maybe_set(C&, Rng&, std::false_type) {}
 }  // namespace
